@@ -1893,9 +1893,6 @@ impl Gen {
                     }
                 }
             }
-            for l in 0..m.len() {
-                muts.push(m[..l].to_vec());
-            }
             let cap = if self.thorough { 700 } else { 150 };
             if muts.len() > cap {
                 for k in 0..cap {
@@ -1903,6 +1900,10 @@ impl Gen {
                     muts.swap(k, j);
                 }
                 muts.truncate(cap);
+            }
+            // EVERY truncation (not sampled): a buffer may end anywhere, also inside the padding between header and body
+            for l in 0..m.len() {
+                muts.push(m[..l].to_vec());
             }
             for x in muts {
                 self.hdr("hdr", *bo, &hex(&x));
